@@ -223,7 +223,12 @@ func (txn *writeTxnState) addDeleteTracker(meta TableMeta, trackerName string, d
 		return tableError(meta.Name(), ErrTableNotLockedForWriting)
 	}
 
-	_, _, updated := table.deleteTrackers.Insert([]byte(trackerName), dt)
+	// Commit without notifying: the tree being modified is the committed one and
+	// closing its watch channels here would leak out of an aborted transaction
+	// (and panic on the next modification with a double close).
+	dtTxn := table.deleteTrackers.Txn()
+	dtTxn.Insert([]byte(trackerName), dt)
+	updated := dtTxn.Commit()
 	table.deleteTrackers = &updated
 	txn.db.metrics.DeleteTrackerCount(meta.Name(), table.deleteTrackers.Len())
 
